@@ -13,6 +13,8 @@ R2  frozen closure: every model class reachable from Config through field
 R3  guards: Config.get and both proxy methods raise while `_config is None`;
     the "already initialised" refusal is the first thing the first
     after-validator does; reset stores None.
+R5  key normalisation keeps the overlay order: every item is stored into the
+    normalised dict, later spellings replacing earlier ones.
 R4  precedence: load computes deep_update(defaults, deep_update(file, kwargs));
     every merge step is the recursive deep_update (a shallow merge loses
     nested keys); deep_update lets the overlay win and recurses only when both
@@ -58,7 +60,35 @@ def _global_stores(fi):
     return out
 
 
+def rule_normalise(ctx):
+    """R5: the overlay order survives key normalisation.  deep_update is case-sensitive, so a key of the file or of the
+    keyword arguments that is capitalised differently from the default's key sits *after* it in the merged dict;
+    CIBaseModel._normalize_dict folds both onto the field name, and the later one (the overlay) must win: the store
+    into the normalised dict happens for every item, in order."""
+    mm = ctx.prog.module('utils/models.py')
+    nd = mm.func('CIBaseModel._normalize_dict')
+    loops = [x for x in walk_no_nested(nd.node) if isinstance(x, ast.For) and norm(x.iter).endswith('.items()')]
+    if len(loops) != 1:
+        ctx.undecided('C18-R5', nd, 'for … in values.items()', f'{len(loops)} item loops')
+    lp = loops[0]
+    stores = [st for t, st, how in stores_to(nd.node) if isinstance(t, ast.Subscript) and norm(t.value) == 'normalized'
+              and any(a is lp for a in ancestors(st))]
+    ctx.floor('C18-R5', len(stores), 1, 'stores into the normalised dict')
+    for st in stores:
+        gs = [norm(t) for t, pol, o in guards_of(st) if any(a is lp for a in ancestors(o))]
+        ok = not gs
+        ctx.ob('C18-R5', nd, f'{norm(st)[:50]} for every item', ok, 'unconditional: the last spelling of a field wins' if ok else
+               f'the store is conditional on {gs}: an overlay key may not replace the default', line=st.lineno)
+    for c in [x for x in ast.walk(lp) if isinstance(x, (ast.Continue, ast.Break))]:
+        gs = [norm(t) for t, pol, o in guards_of(c) if any(a is lp for a in ancestors(o))]
+        ok = gs == ['field_name is None']
+        ctx.ob('C18-R5', nd, f'item skipped when {gs}', ok, 'only when the key maps to no name at all' if ok else
+               (f'items are skipped when {gs}: the first spelling of a field is kept and later ones are dropped, so a default '
+                'beats the file and the file beats keyword arguments whenever the capitalisation differs'), line=c.lineno)
+
+
 def run(ctx):
+    rule_normalise(ctx)
     prog = ctx.prog
     m = prog.module(CORE)
     cfg = m.cls('Config')
